@@ -206,8 +206,10 @@ package geometry
 //@   ensures result == polyContainsPolyS(poly, other)
 //@   loop 0 invariant contains && (forall h int :: 0 <= h && h < $i ==> (!ringIntersectsRingS(polyHole(poly,h), polyExt(other), false) || holeCoveredS(other, polyHole(poly,h))))
 //@   loop 0 assert polyHole(poly, $i) == polyHole
-//@   loop 1 invariant !contains && (forall g int :: 0 <= g && g < $i ==> !ringContainsRingS(polyHole(other,g), polyHole, true))
+//@   loop 0 assert HoleInv: RingInv(polyHole) && SeriesInv(polyHole)
+//@   loop 1 invariant !contains && (forall g int :: 0 <= g && g < $i ==> !ringContainsRingS(polyHole(other,g), polyHole, true)) && SeriesInv(polyHole)
 //@   loop 1 assert polyHole(other, $i) == otherHole
+//@   loop 1 assert OtherInv: RingInv(otherHole)
 
 //@ func Poly.IntersectsPoly
 //@   props C02
